@@ -1043,6 +1043,18 @@ def build_session(rng, opts=None, workdir=None):
     # history "remove_last": joins / links / groups are built with all datasets, then the last dataset is removed
     # from the collection (it stays reachable through a remaining dataset's key join and the groups' selections)
     history = opts.get("history")
+    special = opts.get("special")
+    if special == "parsed_same_label":
+        # expressions whose references are different objects carrying one label (across two linked tables, and
+        # inside one table): d0.w <-> d1.v are linked both ways, so d1.v can be read on d0
+        nds = max(nds, 2)
+        want_link = "LinkTwoWay"
+    if special == "element_bound":
+        # an element selection bound to the first table, next to a key-joined and an unrelated table that are long
+        # enough for its indices
+        nds = 3
+        want_join = rng.choice(JOIN_SHAPES)
+        opts["links"] = False
     pair = (0, 1)
     if history == "remove_last":
         nds = max(nds, rng.choice([2, 3]))
@@ -1092,6 +1104,8 @@ def build_session(rng, opts=None, workdir=None):
         force[0]["coords"] = force[1]["coords"] = "wcs"
     if want_link == "LinkAligned":
         shapes[pair[1]] = shapes[pair[0]]
+    if special == "element_bound":
+        shapes = [(rng.randint(2, 4),), (rng.randint(4, 7),), (rng.randint(4, 7),)]
     for i in range(nds):
         if files and (i == 0 or rng.random() < 0.5):
             ses.ds.append(load_file_dataset(rng, i, workdir, opts))
@@ -1215,6 +1229,54 @@ def build_session(rng, opts=None, workdir=None):
         desc["groups"].append({"on": len(ses.ds) - 1, "sig": {"state": "InequalitySubsetState", "op": "gt", "form": "cid_const",
                                                              "att": "value", "leaf_kind": "inequality", "nested": False},
                                "label": "on_zero_size", "styled": False})
+    if special == "parsed_same_label":
+        d0, d1 = ses.ds[0].data, ses.ds[1].data
+        if not any(l["kind"] == "LinkTwoWay" and set(l["between"]) == {0, 1} for l in desc["links"]):
+            dc.add_link(LH.LinkTwoWay(d0.id["w"], d1.id["v"], f_double, f_half))
+            desc["links"].append({"link": "LinkTwoWay", "kind": "LinkTwoWay", "between": [0, 1]})
+        # which side of the link can read the other's "v" depends on its direction: find it by trying
+        a_own, b_far, home = d0.id["v"], d1.id["v"], 0
+        try:
+            d0[d1.id["v"]]
+        except Exception:
+            a_own, b_far, home = d1.id["v"], d0.id["v"], 1
+        dh = ses.ds[home].data
+        psig = {"state": "ParsedSubsetState", "leaf_kind": "parsed", "nested": False}
+        groups = [("same_label_across", ParsedSubsetState(ParsedCommand("{a} > {b}", {"a": a_own, "b": b_far})), "two_across")]
+        # inside one table: two more columns labelled "v" (added last, so that no recipe looks "v" up afterwards)
+        t1 = dh.add_component(common.injective_floats(rng, dh.shape), "v")
+        t2 = dh.add_component(common.rand_ints(rng, dh.shape, -3, 3), "v")
+        groups.append(("same_label_within", ParsedSubsetState(ParsedCommand("{p} > {q} + 0.5", {"p": t1, "q": t2})), "two_within"))
+        groups.append(("same_label_three", ParsedSubsetState(ParsedCommand("({x} > {y}) | ({z} < {y})", {"x": a_own, "y": t1, "z": b_far})),
+                       "three_mixed"))
+        for label, st, params in groups:
+            if rng.random() < 0.4:
+                st = S.InvertState(st)
+                sig = {"state": "InvertState", "children": [dict(psig, nested=True, params="same_label:" + params)]}
+            else:
+                sig = dict(psig, params="same_label:" + params)
+            dc.new_subset_group(subset_state=st, label=label)
+            desc["groups"].append({"on": home, "sig": sig, "label": label, "styled": False})
+        # and as derived columns
+        # (a derived column may only refer to its own table's columns)
+        dh.add_component_link(ParsedComponentLink(ComponentID("der_same_within"), ParsedCommand("{p} * 10 + {q}", {"p": t1, "q": t2})),
+                              "der_same_within")
+        dh.add_component_link(ParsedComponentLink(ComponentID("der_same_three"),
+                                                  ParsedCommand("{p} - {q} * {r}", {"p": t1, "q": a_own, "r": t2})), "der_same_three")
+        ses.ds[home].info["derived"].update(der_same_within="parsed", der_same_three="parsed")
+        ses.ds[home].info.setdefault("variants", []).append("same_label_references")
+    if special == "element_bound":
+        d0 = ses.ds[0].data
+        idx = sorted(rng.sample(range(d0.size), rng.randint(1, d0.size)))
+        esig = {"state": "ElementSubsetState", "with_data": True, "nd_index": False, "leaf_kind": "element", "params": "bound_to_first"}
+        dc.new_subset_group(subset_state=S.ElementSubsetState(idx, d0), label="bound_top")
+        desc["groups"].append({"on": 0, "sig": dict(esig, nested=False), "label": "bound_top", "styled": False})
+        other = ses.ds[0].data.id["w"] > -1e30
+        dc.new_subset_group(subset_state=S.AndState(S.ElementSubsetState(idx, d0), other), label="bound_nested")
+        desc["groups"].append({"on": 0, "sig": {"state": "AndState", "children": [
+            dict(esig, nested=True), {"state": "InequalitySubsetState", "op": "gt", "form": "cid_const", "att": "value",
+                                      "leaf_kind": "inequality", "nested": True}]}, "label": "bound_nested", "styled": False})
+        ses.ds[0].info.setdefault("variants", []).append("element_bound_next_to_longer_tables")
     # a named leaf kind, once at top level and once below a composite (where the general restrictions admit it)
     if want_leaf:
         cand = [k for k in range(nds) if leaf_domain_ok(want_leaf, ses.ds[k], k, True, opts)]
